@@ -232,6 +232,13 @@ def pair_space(tier, phase):
     if tier == "thorough":
         five = anns(5, 2, names, 0.5)
         states += [(a, b) for a in five for b in five]
+    # labels that differ only in letter case inside ONE annotation (they must fall into one cluster on either side:
+    # a case rule applied to the reference only breaks the over/under exchange)
+    case_names = (("a", "A", "b"), ("Verse", "verse", "chorus"), ("x", "X", "y"), ("Solo", "solo", "Intro"))[phase % 4]
+    plain = tuple(n.lower() + "_" for n in case_names)
+    cs = anns(3, 3, case_names, 0.5)
+    pl = anns(3, 3, plain, 0.5)
+    states += [(a, b) for a in cs for b in pl] + [(a, b) for a in pl for b in cs]
     if phase:
         dr, de = Fr(phase, 4), Fr(phase, 4) + Fr(phase % 2, 8)
         states += [(_shifted(a, dr), _shifted(b, de)) for a in small for b in small if a or b]
